@@ -6,7 +6,7 @@
     operator_table_sound cmp_probe_agrees prec_probe_agrees function_table_sound
     nodetest_table_sound axis_table_sound pred_eval_sound pred_outcome_sound
     substring_not_xpath ne_absent_not_xpath step_matches_eq_xp parser_rejects_outside
-    select_eq_xp_step
+    select_eq_xp_step select_eq_xp_chain
 -/
 import Genshi.Model.Path
 import Genshi.Model.PathParse
@@ -16,6 +16,7 @@ import Genshi.Gen.Path
 import Genshi.Lemmas.PathEval
 import Genshi.Lemmas.PathXp
 import Genshi.Lemmas.PathSelect
+import Genshi.Lemmas.PathChain
 namespace Genshi.Props.C05
 open Genshi Genshi.Path
 
@@ -308,6 +309,114 @@ theorem select_eq_xp_step (s : Step) (ns : NsMap) (vs : Vars)
   have hm := single_matches s ns vs (.elem tag attrs kids) hna hcl hwf htyped hcand
   simp only [selOf, hm, contains_map_loc, Ref.nodeSelected, List.any_cons, List.any_nil, Bool.or_false,
     List.getLast?_singleton, hna', Bool.true_and, Ref.reach]
+
+theorem runTest_simple' (frags : Option (List Frag)) (ic : Bool) (ns : NsMap) (vs : Vars) (t : PState)
+    (es : List Event) :
+    runTest [.simple frags ic] ns vs [.p t] es = (runOne (pStep frags ic ns) t es).1 := by
+  induction es generalizing t with
+  | nil => rfl
+  | cons e es ih =>
+    simp only [runTest, multiStep, List.zip_cons_cons, List.zip_nil_right, List.map_cons, List.map_nil,
+      Matcher.step, List.foldl_cons, List.foldl_nil, Val.isNone, runOne]
+    rw [ih]
+    simp
+
+theorem runTest_generic' (steps : List Step) (ns : NsMap) (vs : Vars) (g : GState) (es : List Event) :
+    runTest [.generic steps] ns vs [.g g] es = (runOne (gStep steps ns vs) g es).1 := by
+  induction es generalizing g with
+  | nil => rfl
+  | cons e es ih =>
+    simp only [runTest, multiStep, List.zip_cons_cons, List.zip_nil_right, List.map_cons, List.map_nil,
+      Matcher.step, List.foldl_cons, List.foldl_nil, Val.isNone, runOne]
+    rw [ih]
+    simp
+
+/-- **select_eq_xp**, stage 2 for chains of child steps.  For every location path
+    `t1/t2/…/tn` (n ≥ 1, child axis, any node tests, no predicates) and every element tree,
+    `Path.select` delivers exactly what XPath 1.0 designates (`Ref.xpSelect`) — with
+    SimplePathStrategy and with GenericStrategy alike (`Path.__init__` picks one of the two
+    for n ≥ 2, SingleStepStrategy for n = 1, which is `select_eq_xp_step`).
+    Proof: Simple's stack entry (fragment, matched prefix) is followed down the tree
+    (`simple_live`), its matches are the nodes reached through the chain (`chainAt`), which
+    are the members of XPath's node set (`chainAt_reach`); GenericStrategy reports the same
+    event by event (`sim_chain`); `Path.select` turns the matches into the outermost
+    subtrees (`emitV_pick`).
+
+    Still open (stage 2 in general): `descendant::` / `descendant-or-self::` / `self::`
+    steps inside multi-step paths (position sets of GenericStrategy with several entries,
+    KMP fall-back of SimplePathStrategy) and predicates on the steps of a multi-step path. -/
+theorem select_eq_xp_chain (tests : List NodeTest) (hne : tests ≠ []) (ns : NsMap) (vs : Vars)
+    (tag : QName) (attrs : AttrList) (kids : List Node)
+    (hgood : (Node.elem tag attrs kids).good = true) (hwf : ∀ t ∈ tests, t.elemWf ns) :
+    select [childChain tests] ns vs (Node.elem tag attrs kids).flatten (some .simple)
+      = Ref.xpSelect [childChain tests] ns (toXVars vs) (.elem tag attrs kids) ∧
+    select [childChain tests] ns vs (Node.elem tag attrs kids).flatten (some .generic)
+      = Ref.xpSelect [childChain tests] ns (toXVars vs) (.elem tag attrs kids) := by
+  have hcl : (Node.elem tag attrs kids).clean = true := clean_of_good _ hgood
+  have hkcl : cleanList kids = true := by simpa [Node.clean] using hcl
+  have hrok : (Node.elem tag attrs kids).ok = true := ok_of_clean _ hcl
+  have hok : okList kids = true := by simpa [Node.ok] using hrok
+  have hg : gSteps (childChain tests) false = dotSlash :: childChain tests := by
+    cases tests with
+    | nil => exact absurd rfl hne
+    | cons t ts => simp [childChain, gSteps]
+  have hruns := chain_runs ns vs tests hne tag attrs kids hok
+  -- the per-event results are matches (`None` or `True`)
+  have hokv : okVals (runOne (gStep (dotSlash :: childChain tests) ns vs) gInit (Node.elem tag attrs kids).flatten).1
+      (eventLocs (.elem tag attrs kids) []) :=
+    okVals_run _ (gStep_out _ ns vs (fun e => lastResult_chain tests hne e ns)) _ [] _
+  -- the reference side, shared by both strategies
+  have href : Ref.xpSelect [childChain tests] ns (toXVars vs) (.elem tag attrs kids)
+      = Ref.pick (selOf (runOne (pStep (some [⟨tests, calculatePi tests, none, false⟩]) false ns) []
+            (Node.elem tag attrs kids).flatten).1 (eventLocs (.elem tag attrs kids) []))
+          (fun _ => []) (.elem tag attrs kids) [] := by
+    unfold Ref.xpSelect
+    have hlastax : ∀ last, (childChain tests).getLast? = some last → last.axis = .child := by
+      intro last hl
+      simp only [childChain, List.getLast?_map] at hl
+      cases hgl : tests.getLast? <;> simp [hgl] at hl
+      rw [← hl]
+    have hasel : Ref.attrsSelected [childChain tests] ns (toXVars vs) ⟨[], .elem tag attrs kids⟩ = fun _ => [] := by
+      funext n
+      unfold Ref.attrsSelected
+      cases n.node with
+      | leaf e => rfl
+      | elem t a ks =>
+        simp only [List.any_cons, List.any_nil, Bool.or_false]
+        cases hl : (childChain tests).getLast? with
+        | none => simp
+        | some last =>
+          have := hlastax last hl
+          exact List.filter_eq_nil_iff.mpr (fun _ _ => by simp [this])
+    rw [hasel]
+    apply pick_congr
+    intro m _
+    simp only [selOf, simple_chain_matches ns tests hne tag attrs kids hkcl, contains_map_loc,
+      Ref.nodeSelected, List.any_cons, List.any_nil, Bool.or_false]
+    rw [chainAt_reach ns (toXVars vs) tests hwf ⟨[], .elem tag attrs kids⟩ hgood m]
+    cases hl : (childChain tests).getLast? with
+    | none =>
+      have : childChain tests ≠ [] := by simpa [childChain] using hne
+      simp [List.getLast?_eq_none_iff] at hl
+      exact absurd hl this
+    | some last => simp [hlastax last hl]
+  refine ⟨?_, ?_⟩
+  · unfold select
+    simp only [pathTest, List.map_cons, List.map_nil, mkMatcher, fragments_chain]
+    rw [selectGo_eq_emitV, runTest_simple', href]
+    exact emitV_pick _ hrok [] _ (hruns ▸ hokv)
+  · unfold select
+    simp only [pathTest, List.map_cons, List.map_nil, mkMatcher, hg]
+    rw [selectGo_eq_emitV, runTest_generic', href, hruns]
+    exact emitV_pick _ hrok [] _ (hruns ▸ hokv)
+
+-- non-vacuity: `a/b` on <r><a><b/></a><b/></r> selects the inner <b/> only
+example : select [childChain [.localName false ['a'], .localName false ['b']]] [] []
+    (Node.elem ⟨[], ['r']⟩ [] [Node.elem ⟨[], ['a']⟩ [] [Node.elem ⟨[], ['b']⟩ [] []],
+        Node.elem ⟨[], ['b']⟩ [] []]).flatten (some .simple)
+    = [.ev (.start ⟨[], ['b']⟩ []), .ev (.end_ ⟨[], ['b']⟩)] := by decide +kernel
+example : (Node.elem ⟨[], ['r']⟩ [] [Node.elem ⟨[], ['a']⟩ [] [Node.elem ⟨[], ['b']⟩ [] []],
+        Node.elem ⟨[], ['b']⟩ [] []]).good = true := by decide +kernel
 
 /-! ## Witnesses of the recorded findings: the full statement is false of the model there -/
 
